@@ -141,7 +141,26 @@ def build_modules(repo, flavour="plain"):
     with cf.ThreadPoolExecutor(4) as ex:
         list(ex.map(one, MODULES))
     open(done, "w").write("ok\n")
+    _prune_old_builds(keep=out)
     return result
+
+
+def _prune_old_builds(keep, max_dirs=24, min_age_s=6 * 3600):
+    """Disk hygiene: the digest covers the source *paths*, so every scratch copy of the repository gets its own build
+    directory. Directories beyond the newest `max_dirs` that have not been touched for `min_age_s` are removed (a check that
+    is still running uses a directory younger than that)."""
+    import shutil
+    import time
+
+    try:
+        dirs = [os.path.join(BUILD_ROOT, n) for n in os.listdir(BUILD_ROOT)]
+        dirs = sorted((d for d in dirs if os.path.isdir(d) and d != keep), key=os.path.getmtime, reverse=True)
+        now = time.time()
+        for d in dirs[max_dirs:]:
+            if now - os.path.getmtime(d) > min_age_s:
+                shutil.rmtree(d, ignore_errors=True)
+    except OSError:
+        pass
 
 
 def build_driver(repo, flavour):
